@@ -117,6 +117,16 @@ func c02Docs(rng *rand.Rand, nRandom int) []c02Doc {
 			map[string]any{"type": "object", "properties": map[string]any{"barks": map[string]any{"type": "boolean"}, "breed": map[string]any{"type": "string"}}}}}
 		sc["Pet"].(map[string]any)["properties"].(map[string]any)["hound"] = map[string]any{"$ref": "#/components/schemas/Hound"}
 	}), ""})
+	// media types whose words begin like two initialisms at once (uid: UI / UID, https: HTTP / HTTPS): whichever the
+	// normaliser prefers must be the same in every process
+	docs = append(docs, c02Doc{"wide + vendor media types with words that begin like two initialisms", mutateJSON(c02Wide, func(r map[string]any) {
+		paths := r["paths"].(map[string]any)
+		obj := map[string]any{"type": "object", "properties": map[string]any{"a": map[string]any{"type": "string"}}}
+		paths["/vendor-words"] = map[string]any{"post": map[string]any{"operationId": "createVendorThing",
+			"requestBody": map[string]any{"content": map[string]any{"application/json": map[string]any{"schema": obj}, "application/vnd.acme.uid+json": map[string]any{"schema": obj},
+				"application/vnd.acme.https-report+json": map[string]any{"schema": obj}, "application/vnd.acme.apis.ipv6+json": map[string]any{"schema": obj}}},
+			"responses": map[string]any{"204": map[string]any{"description": "d"}}}}
+	}), ""})
 	for i := 0; i < nRandom; i++ {
 		d, _ := gendoc.Generate(rng, tameOpts())
 		docs = append(docs, c02Doc{fmt.Sprintf("random#%d", i), d.JSON(), ""})
